@@ -2,6 +2,7 @@ package main
 
 import (
 	"fmt"
+	"go/types"
 	"strings"
 
 	"golang.org/x/tools/go/ssa"
@@ -35,6 +36,20 @@ func checkC19(c *Ctx, w *World) {
 			n++
 		}
 	})
+	// … and nowhere else on the way: a second encoding (in a helper) need not be byte-identical to the first
+	// (map order), so checksum and payload must come from one and the same call
+	nTrans := 0
+	for fn := range p.reachableModule(m) {
+		if fn == m {
+			continue
+		}
+		eachInstr(fn, func(in ssa.Instruction) {
+			if cc := callCommon(in); cc != nil && cc.IsInvoke() && cc.Method.Name() == "Marshal" {
+				nTrans++
+				c.fail("C19.frame", "wrapped Marshal called again in "+fname(fn), p.ipos(in), "the message is encoded a second time on the way through Marshal: the checksum and the payload can come from different encodings (proto map order is not deterministic)")
+			}
+		})
+	}
 	if inner == nil || n != 1 {
 		c.fail("C19.frame", "wrapped Marshal", p.pos(m.Pos()), fmt.Sprintf("expected exactly one call of the wrapped codec's Marshal, found %d", n))
 		return
@@ -42,6 +57,20 @@ func checkC19(c *Ctx, w *World) {
 	c.check(inner.Call.Args[0] == ssa.Value(m.Params[1]) && inner.Block() == m.Blocks[0], "C19.frame", "wrapped Marshal(v)", p.ipos(inner), "the wrapped codec marshals the caller's value, unconditionally", "the wrapped codec is not given the caller's value")
 	payload := func(v ssa.Value) bool { return isExtractOf(stripConv(v), inner, 0) }
 	innerErr := func(v ssa.Value) bool { return isExtractOf(stripConv(v), inner, 1) }
+
+	// ---- C19.payload: the wrapped encoding is only ever read between the wrapped Marshal and the result
+	var payloadVal ssa.Value
+	for _, r := range *inner.Referrers() {
+		if e, ok := r.(*ssa.Extract); ok && e.Index == 0 {
+			payloadVal = e
+		}
+	}
+	if payloadVal == nil {
+		c.fail("C19.payload", "payload is read-only", p.ipos(inner), "the wrapped encoding is not used")
+	} else {
+		bad := writableUses(p, payloadVal, map[ssa.Value]bool{}, 0)
+		c.check(len(bad) == 0, "C19.payload", "payload is read-only", p.ipos(inner), "every use of the wrapped encoding (and of every slice sharing its backing array) only reads it: checksum input, append source, length, logging, return", "the wrapped encoding can be written or aliased after it was produced (the bytes returned then differ from what was encoded, or from what the checksum covers): "+strings.Join(bad, "; "))
+	}
 
 	var nb, ev, ef *ssa.Call
 	var bufCalls []string
@@ -179,4 +208,114 @@ func checkC19(c *Ctx, w *World) {
 		}
 	})
 	c.check(okU, "C19.unmarshal", "Unmarshal delegates", p.pos(um.Pos()), "both arguments go to the wrapped codec and its result is returned (a conforming parser skips the unknown field 2047)", "Unmarshal does not simply delegate to the wrapped codec")
+}
+
+// writableUses: uses of slice value v (or of slices sharing its backing array) that may write or retain it.
+// Read-only uses: len/cap, append source, copy source, index/range reads, comparisons, conversion to string,
+// return, trusted read-only library calls (hash/crc32, log, fmt, bytes.Equal), and module callees whose
+// parameter is again only read (depth-bounded).
+func writableUses(p *Prog, v ssa.Value, seen map[ssa.Value]bool, depth int) []string {
+	if seen[v] {
+		return nil
+	}
+	seen[v] = true
+	if depth > 6 {
+		return []string{"use chain too deep to decide at " + p.pos(v.Pos())}
+	}
+	refs := v.Referrers()
+	if refs == nil {
+		return nil
+	}
+	var bad []string
+	trustedRO := func(name string) bool {
+		for _, pre := range []string{"crc32.", "log.", "fmt.", "bytes.Equal", "bytes.Compare", "hex.", "strings."} {
+			if strings.HasPrefix(name, pre) {
+				return true
+			}
+		}
+		return false
+	}
+	for _, r := range *refs {
+		switch x := r.(type) {
+		case *ssa.DebugRef, *ssa.Return, *ssa.Index, *ssa.Range, *ssa.Lookup:
+		case *ssa.BinOp:
+		case *ssa.Convert:
+			// string(b) copies; []byte→named slice keeps the array
+			if b, ok := x.Type().Underlying().(*types.Basic); !ok || b.Info()&types.IsString == 0 {
+				bad = append(bad, writableUses(p, x, seen, depth+1)...)
+			}
+		case *ssa.Phi, *ssa.ChangeType, *ssa.Slice:
+			bad = append(bad, writableUses(p, x.(ssa.Value), seen, depth+1)...)
+		case *ssa.MakeInterface:
+			bad = append(bad, writableUses(p, x, seen, depth+1)...)
+		case *ssa.IndexAddr:
+			for _, rr := range *x.Referrers() {
+				switch y := rr.(type) {
+				case *ssa.UnOp, *ssa.DebugRef:
+				case *ssa.Store:
+					if y.Addr == ssa.Value(x) {
+						bad = append(bad, "element written at "+p.ipos(y))
+					} else {
+						bad = append(bad, writableUses(p, x, seen, depth+1)...)
+					}
+				default:
+					bad = append(bad, "element address escapes at "+p.ipos(rr))
+				}
+			}
+		case *ssa.Store:
+			// v stored somewhere: only into a local cell (then follow its loads) or into a fresh vararg array for a trusted call
+			switch a := x.Addr.(type) {
+			case *ssa.Alloc:
+				for _, rr := range *a.Referrers() {
+					if ld, ok := rr.(*ssa.UnOp); ok {
+						bad = append(bad, writableUses(p, ld, seen, depth+1)...)
+					}
+				}
+			case *ssa.IndexAddr:
+				if arr, ok := a.X.(*ssa.Alloc); ok {
+					for _, rr := range *arr.Referrers() {
+						if sl, ok := rr.(*ssa.Slice); ok {
+							bad = append(bad, writableUses(p, sl, seen, depth+1)...)
+						}
+					}
+				} else {
+					bad = append(bad, "stored into shared memory at "+p.ipos(x))
+				}
+			default:
+				bad = append(bad, "stored into shared memory at "+p.ipos(x))
+			}
+		case ssa.CallInstruction:
+			cc := x.Common()
+			cal := calleeOf(cc)
+			argIdx := -1
+			for i, a := range cc.Args {
+				if a == v {
+					argIdx = i
+				}
+			}
+			switch {
+			case cal.Builtin == "len" || cal.Builtin == "cap" || cal.Builtin == "print" || cal.Builtin == "println":
+			case cal.Builtin == "append":
+				if argIdx == 0 || cc.Args[0] == v {
+					bad = append(bad, "used as the destination of append at "+p.ipos(x)+" (writes into the shared backing array when capacity allows)")
+				}
+			case cal.Builtin == "copy":
+				if cc.Args[0] == v {
+					bad = append(bad, "used as the destination of copy at "+p.ipos(x))
+				}
+			case cal.Static != nil && trustedRO(cal.Name()):
+			case cal.Static != nil && cal.Static.Blocks != nil && argIdx >= 0 && !cc.IsInvoke():
+				prm := cal.Static.Params[argIdx]
+				sub := writableUses(p, prm, seen, depth+1)
+				for _, b := range sub {
+					bad = append(bad, "via "+fname(cal.Static)+": "+b)
+				}
+			default:
+				bad = append(bad, "passed to "+cal.Name()+" at "+p.ipos(x)+", which may write or keep it")
+			}
+		default:
+			bad = append(bad, fmt.Sprintf("unrecognised use %T at %s", r, p.ipos(r)))
+		}
+	}
+	return bad
 }
